@@ -47,6 +47,23 @@ def rng_units():
 
 
 def plan(prop, tier):
+    if prop == "C15":
+        from .rules import C15
+        pairs = C15.PAIRS_QUICK if tier == "quick" else C15.PAIRS_THOROUGH
+        cfgs = []
+        for a, b, _ in pairs:
+            for c in (a, b):
+                if c not in cfgs:
+                    cfgs.append(c)
+        ps = (2, 3) if tier == "quick" else (1, 2, 3, 4)
+        us = []
+        for c in cfgs:
+            us += parts(c, ps, True)
+        if tier == "quick":
+            us += parts("all", (4,), True)      # a void-payload machine with plans (payload~void sibling comparison)
+        if tier == "thorough":
+            us += parts("all", ps, True, flavour="development") + parts("all", (2, 3), False)
+        return us
     if prop == "C18":
         # container code is pattern-level (members the machines never instantiate are analysed as uninstantiated patterns)
         us = [Unit("zoo1", os.path.join(VERIF, "witness", "zoo.cpp"), "all", True, extra=["-DZOO_PART=1"], patterns=True)]
